@@ -72,7 +72,11 @@ class Sim(object):
         P.CLOCK.tick = _dt.timedelta(microseconds=ck.get('tick_us', 137))
         P.CLOCK.readings = []
         P.CLOCK.utcoffset = _dt.timedelta(seconds=ck.get('utcoffset_s', 0))
+        dst = ck.get('dst') or {}
+        P.CLOCK.has_dst = bool(dst.get('has'))
+        P.CLOCK.dst_on = bool(dst.get('has') and dst.get('on'))
         P.CLOCK.nonlocal_reads = 0
+        P.apply_zone()
         P.RANDOM.script = []
         P.RANDOM.rng = random.Random(case.get('randseed', 0))
         P.RANDOM.calls = 0
@@ -154,4 +158,5 @@ class Sim(object):
         return m.hexdigest()
 
     def close(self):
+        P.restore_zone()
         self.sb.close()
